@@ -192,7 +192,7 @@ func (s *Sch) Invalid(r *hx.Rng, goT string) (any, bool) {
 	} else if goT == "" {
 		cands = []any{42, "wrong", []any{"zz", 1.5}, map[string]any{"zz": 1.5}, true}
 	} else if goT == "mapSA" {
-		cands = []any{map[string]any{"zz": 1.5, "t": "none"}, map[string]any{}}
+		cands = []any{map[string]any{"zz": 1.5}, map[string]any{}}
 	}
 	// keep only candidates the schema really rejects
 	var bad []any
@@ -392,7 +392,11 @@ func (s *Sch) Corrupt(r *hx.Rng, v any, goT string, depth int) (any, []any, bool
 		c := hx.Pick(r, ch)
 		nv, sub, ok := c.M.Corrupt(r, c.V, c.GoT, depth-1)
 		if ok {
-			return c.Replace(nv), append([]any{c.Elem}, sub...), true
+			el := c.Elem
+			if s.Kind == "set" { // the element IS the key: after the replacement it is addressed by its new value
+				el = nv
+			}
+			return c.Replace(nv), append([]any{el}, sub...), true
 		}
 	}
 	nv, ok := s.Invalid(r, goT)
